@@ -266,10 +266,26 @@ REASONS_NOT_YET = "check not built yet (build in progress; DESIGN.md section 3 l
 
 checks = []
 na = []
+# additions of round 8 (kept apart from the long literals above)
+ROUND8 = {
+    "C01": "in __private_emit_event and __private_evt the receiver of the one and_props roots in the hook's call-site props parameter and the argument in the carried-in list (call-site props win on a duplicate key).",
+    "C03": "impl Ctxt for Option<C>: enter/exit hand the inner context a place inside the caller's &mut frame (no value moved out of it), open_* return the inner frame over the caller's props; every mutable-borrow call on the shared per-thread map in swap/current is keyed by the function's own id.",
+    "C04": "a random trace/span id is the rng's draw and nothing else (one draw site, no substitute operation or value constant in what is returned); the Option<C> context rules and the no-truncating-adaptors rule run here too; compile-fail witness: an entered span frame's guard is not Send.",
+    "C07": "the OTLP send-loop rule (the request removed is the request sent, from the same end, only on the Ok edge) runs here too.",
+    "C08": "with the removing call's block taken out the file worker's retention loop header cannot reach itself (a failing delete cannot wedge on_batch).",
+    "C09": "every path through the blocking/async send wrappers passes a call that takes the item; Channel::clear empties a collection field whole (clear, truncate(0), drain(..) over RangeFull), never a computed part of it.",
+    "C10": "BatchError::no_retry in on_batch only on the failed final flush/sync, every earlier failure hands the batch back; the writer's buffer is fresh or emptied on every path before or after the writer call and is what gets queued; retention removes from the oldest end (order-agreement rule of C11).",
+    "C11": "wrapper families for File and Filesystem (method union over all impls of the trait, so a required method turned into a default is still demanded of the wrappers); the component count of a listed name is of the whole name (no splitn/take/nth/skip); the retention loop shrinks the listing on every iteration.",
+    "C13": "no mutex guard is held across an indirect / Fn* / foreign fmt-sval-serde call in the non-worker code of the sink crates (positive control: the detector finds the batcher's lock regions); a default timestamp replaces only an absent extent, never a chain from extent() that was narrowed first.",
+    "C18": "TraceparentCtxtProps::for_each enumerates the ids synthesised from the active traceparent before the wrapped props; compile-fail witness: an entered traceparent frame's guard is not Send.",
+}
+
 for p in props:
     pid = p["id"]
     if pid in CLAIMS and os.path.exists(os.path.join(VERIF, "rules", pid.lower() + ".py")):
         text, tech, ref = CLAIMS[pid][:3]
+        if pid in ROUND8:
+            text = text.rstrip() + " Round 8: " + ROUND8[pid]
         checks.append({
             "property_id": pid,
             "quick_cmd": "./check %s --tier quick" % pid,
